@@ -1162,12 +1162,19 @@ func c07R2IndexAll(c *Ctx) {
 		c.LostAnchor(R, c07IdxAll)
 		return
 	}
+	// the traversal step: the function of the package (closure, method or plain function) that runs the index
+	// step on its own descriptor parameter and dispatches over the result with syncutil.Go
 	var T *ssa.Function
 	var idxCall ssa.CallInstruction
-	for _, a := range Anons(fn) {
+	for _, a := range c.P.FuncsOfPkg("internal/graph") {
+		if len(CallsTo(a, nGo)) == 0 || len(CallsTo(a, "~/content.Successors")) > 0 {
+			continue
+		}
 		for _, call := range Calls(a, func(string) bool { return true }) {
 			if g := StaticCallee(call); g != nil && fnPkgPath(g) == pkgPath("internal/graph") && len(CallsTo(g, "~/content.Successors")) > 0 {
-				T, idxCall = a, call
+				if d := c07DescParam(a); d != nil && c05ParamOf(call.Common().Args[len(call.Common().Args)-1]) == d {
+					T, idxCall = a, call
+				}
 			}
 		}
 	}
